@@ -32,6 +32,7 @@ import QV.Lemmas.Basic
 import QV.Lemmas.Hilbert
 import QV.Lemmas.Density
 import QV.Lemmas.PyFlag
+import QV.Lemmas.CallShape
 import QV.Props.C05
 
 namespace QV.Props
@@ -627,6 +628,234 @@ example (am ph : PRBM ℝ n h a) (hU : ∀ k j, am.U k j = 30) (hd : ∀ k, am.d
 /-- the guard is not vacuous either way: at `x = 0`, `y = π` the excluded point `1 + e^{iπ} = 0` is real. -/
 example : (1 : ℂ) + Complex.exp (((0 : ℝ) : ℂ) + ((Real.pi : ℝ) : ℂ) * I) = 0 := by
   simp [Complex.exp_pi_mul_I]
+
+
+/-! ### Extension round 2: the call forms of `rho` / `pi` / `gamma` AS THE CODE COMPUTES THEM
+
+`Density.rhoCall` / `piCall` / `PRBM.gammaCall` (QV/Model/Density.lean) transcribe the rank tests, `unsqueeze_`s and broadcasting of
+density_matrix.py:132-158, 265-274 and purification_rbm.py:375-396 on tensors (`FT`).  That entry `[i, j]` pairs row `i` of `v` with
+row `j` of `v'`, that `expand=False` pairs row `i` with row `i`, which rank combinations are refused, and that the separately coded
+both-1-D branch of `gamma` computes the same number, are now THEOREMS about those transcriptions (the older `rhoMatrix`, `rhoPaired`,
+`rhoVecBatch`, … are the values they are proved equal to).  The complex number of an entry is `Complex.mk re im`. -/
+
+/-- the partial trace over the auxiliary units that `C02_rho_eq_partial_trace` identifies `rho v v'` with -/
+noncomputable def ptrace (am ph : PRBM ℝ n h a) (v vp : Fin n → ℝ) : ℂ :=
+  ∑ aux : Fin a → Bool, purAmp am ph v aux * conj (purAmp am ph vp aux)
+
+/-- **C02.7a** single element (both arguments 1-D, `expand` ignored; also `rho(v)` alone with `expand=True`): accepted, 0-dim, and the
+value is the SAME scalar `rho v v'` as an entry of the batched forms although `gamma` computes it in a separate branch
+(`dot(v + sign·v', b) + Σ softplus(W v + c) + sign·Σ softplus(W v' + c)`) — for all `v`, `v'`, in particular `v ≠ v'`, where a second
+softplus term evaluated on `v` instead of `v'` would differ.  Hence (guard `NZ`) it is the partial trace. -/
+theorem C02_call_forms_single (am ph : PRBM ℝ n h a) (v vp : Fin n → ℝ) (e : Bool) :
+    (∃ o, rhoCall am ph (.scalar v) (some (.scalar vp)) e = .ok o ∧ o.shape = [] ∧ o.get [] = rho am ph v vp
+        ∧ (NZ am ph v vp → (⟨(o.get []).1, (o.get []).2⟩ : ℂ) = ptrace am ph v vp))
+      ∧ (∃ o, rhoCall am ph (.scalar v) none true = .ok o ∧ o.shape = [] ∧ o.get [] = rho am ph v v)
+      ∧ (∀ sgn : ℝ, ∀ r : PRBM ℝ n h a, r.gammaCall sgn (.scalar v) (.scalar vp) e = .ok (.scalar (r.gamma sgn v vp)))
+      ∧ (∃ p, piCall am ph (.scalar v) (.scalar vp) e = .ok p ∧ p.shape = [] ∧ p.get [] = pi am ph v vp) := by
+  have hvec : ∀ w wp : Fin n → ℝ, rhoVec am ph w wp = rho am ph w wp := fun w wp => by
+    simp only [rhoVec, rho, PRBM.gammaVec_eq_gamma]
+  refine ⟨?_, ?_, fun sgn r => ?_, piCall_vec_vec am ph v vp e⟩
+  · obtain ⟨o, ho, hs, hg⟩ := rhoCall_vec_vec am ph v vp e
+    refine ⟨o, ho, hs, by rw [hg, hvec], fun hz => ?_⟩
+    rw [hg, hvec]
+    exact C02_rho_eq_partial_trace am ph v vp hz
+  · obtain ⟨o, ho, hs, hg⟩ := rhoCall_vec_none am ph v
+    exact ⟨o, ho, hs, by rw [hg, hvec]⟩
+  · rw [PRBM.gammaCall_vec_vec, PRBM.gammaVec_eq_gamma]
+
+/-- **C02.7b** full matrix (`expand=True`, `(B, n)` against `(B', n)`, any `B`, `B'` incl. 0 and 1; `vp=None` means `v' = v`): accepted,
+shape `(B, B')`, entry `[i, j]` is `rho v_i v'_j` — row index from the FIRST argument — hence the partial trace; the factors `gamma`
+and `pi` have the same layout. -/
+theorem C02_call_forms_matrix (am ph : PRBM ℝ n h a) (B B' : ℕ) (vs vps : ℕ → Fin n → ℝ) :
+    (∃ o, rhoCall am ph (.ofRows B vs) (some (.ofRows B' vps)) true = .ok o ∧ o.shape = [B, B']
+        ∧ ∀ i j, i < B → j < B' → o.get [i, j] = rho am ph (vs i) (vps j)
+          ∧ (NZ am ph (vs i) (vps j) → (⟨(o.get [i, j]).1, (o.get [i, j]).2⟩ : ℂ) = ptrace am ph (vs i) (vps j)))
+      ∧ (∃ o, rhoCall am ph (.ofRows B vs) none true = .ok o ∧ o.shape = [B, B]
+        ∧ ∀ i j, i < B → j < B → o.get [i, j] = rho am ph (vs i) (vs j))
+      ∧ (∀ sgn : ℝ, ∀ r : PRBM ℝ n h a, ∃ g, r.gammaCall sgn (.ofRows B vs) (.ofRows B' vps) true = .ok g ∧ g.shape = [B, B']
+        ∧ ∀ i j, i < B → j < B' → g.get [i, j] = r.gamma sgn (vs i) (vps j))
+      ∧ (∃ p, piCall am ph (.ofRows B vs) (.ofRows B' vps) true = .ok p ∧ p.shape = [B, B']
+        ∧ ∀ i j, i < B → j < B' → p.get [i, j] = pi am ph (vs i) (vps j)) := by
+  refine ⟨?_, rhoCall_matrix_none am ph B vs, fun sgn r => PRBM.gammaCall_matrix r sgn B B' vs vps, piCall_matrix am ph B B' vs vps⟩
+  obtain ⟨o, ho, hs, hg⟩ := rhoCall_matrix am ph B B' vs vps
+  refine ⟨o, ho, hs, fun i j hi hj => ⟨hg i j hi hj, fun hz => ?_⟩⟩
+  rw [hg i j hi hj]
+  exact C02_rho_eq_partial_trace am ph _ _ hz
+
+/-- **C02.7c** paired vector (`expand=False`, both arguments batches): accepted EXACTLY when the batch sizes are equal or one of them
+is 1 (`pairedBatch`: torch broadcasting of `(B,)` with `(B',)`), refused otherwise; entry `[i]` is `rho v_i v'_i`, a single row being
+paired with every row of the other batch; with `vp=None` the call returns `make_complex(probability(v))`, which is that diagonal. -/
+theorem C02_call_forms_paired (am ph : PRBM ℝ n h a) (B B' : ℕ) (vs vps : ℕ → Fin n → ℝ) :
+    ((∃ o, rhoCall am ph (.ofRows B vs) (some (.ofRows B' vps)) false = .ok o) ↔ (B = B' ∨ B = 1 ∨ B' = 1))
+      ∧ (∀ C, pairedBatch B B' = .ok C →
+          ∃ o, rhoCall am ph (.ofRows B vs) (some (.ofRows B' vps)) false = .ok o ∧ o.shape = [C]
+            ∧ ∀ i, i < C → o.get [i] = rho am ph (vs (if B = 1 then 0 else i)) (vps (if B' = 1 then 0 else i)))
+      ∧ (∃ o, rhoCall am ph (.ofRows B vs) (some (.ofRows B vps)) false = .ok o ∧ o.shape = [B]
+          ∧ ∀ i, i < B → o.get [i] = rho am ph (vs i) (vps i)
+            ∧ (NZ am ph (vs i) (vps i) → (⟨(o.get [i]).1, (o.get [i]).2⟩ : ℂ) = ptrace am ph (vs i) (vps i)))
+      ∧ (∃ o, rhoCall am ph (.ofRows B vs) none false = .ok o ∧ o.shape = [B]
+          ∧ ∀ i, i < B → o.get [i] = rho am ph (vs i) (vs i)) := by
+  have hp := rhoCall_paired am ph B B' vs vps
+  refine ⟨?_, ?_, ?_, ?_⟩
+  · constructor
+    · rintro ⟨o, ho⟩
+      by_contra hne
+      simp only [not_or] at hne
+      have : pairedBatch B B' = .error .RuntimeError := by simp [pairedBatch, hne.1, hne.2.1, hne.2.2]
+      rw [this] at hp
+      obtain ⟨e, he⟩ := hp
+      rw [he] at ho
+      cases ho
+    · intro hc
+      have : ∃ C, pairedBatch B B' = .ok C := by
+        unfold pairedBatch
+        rcases hc with h | h | h
+        · exact ⟨B, by simp [h]⟩
+        · by_cases h1 : B = B'
+          · exact ⟨B, by simp [h1]⟩
+          · exact ⟨B', by rw [if_neg h1, if_pos h]⟩
+        · by_cases h1 : B = B'
+          · exact ⟨B, by simp [h1]⟩
+          · by_cases h2 : B = 1
+            · exact ⟨B', by rw [if_neg h1, if_pos h2]⟩
+            · exact ⟨B, by rw [if_neg h1, if_neg h2, if_pos h]⟩
+      obtain ⟨C, hC⟩ := this
+      rw [hC] at hp
+      obtain ⟨o, ho, _⟩ := hp
+      exact ⟨o, ho⟩
+  · intro C hC
+    rw [hC] at hp
+    exact hp
+  · have hq := rhoCall_paired am ph B B vs vps
+    have hC : pairedBatch B B = .ok B := by simp [pairedBatch]
+    rw [hC] at hq
+    obtain ⟨o, ho, hs, hg⟩ := hq
+    have hrow : ∀ i, i < B → o.get [i] = rho am ph (vs i) (vps i) := fun i hi => by
+      rw [hg i hi, bsel_lt hi]
+    refine ⟨o, ho, hs, fun i hi => ⟨hrow i hi, fun hz => ?_⟩⟩
+    rw [hrow i hi]
+    exact C02_rho_eq_partial_trace am ph _ _ hz
+  · refine ⟨_, rhoCall_diag am ph _, rfl, fun i _ => ?_⟩
+    simpa [FT.map, FT.ofRows] using C02_rhoDiag_eq_rho_diag am ph (vs i)
+
+/-- **C02.7d** mixed ranks, exactly as the code has them: a 1-D `v` against a batch is REFUSED with `expand=True` (`gamma`'s
+`temp1.unsqueeze_(1)` on a 0-dim tensor — although `pi` alone accepts the form, `piCall_vec_batch_expand`) and gives the `(B',)` vector
+`rho v v'_j` with `expand=False`; a batch against a 1-D `v'` gives the `(B, 1)` column (`expand=True`) resp. the `(B,)` vector
+(`expand=False`) of `rho v_i v'`; in every accepted form the shape is the one `rhoRankOutcome` tabulates. -/
+theorem C02_call_forms_mixed (am ph : PRBM ℝ n h a) (v : Fin n → ℝ) (B : ℕ) (vs : ℕ → Fin n → ℝ) :
+    (∃ e, rhoCall am ph (.scalar v) (some (.ofRows B vs)) true = .error e)
+      ∧ (∃ o, rhoCall am ph (.scalar v) (some (.ofRows B vs)) false = .ok o ∧ o.shape = [B]
+          ∧ ∀ j (hj : j < B), o.get [j] = rhoVecBatch am ph v (fun k : Fin B => vs k) ⟨j, hj⟩ ∧ o.get [j] = rho am ph v (vs j))
+      ∧ (∃ o, rhoCall am ph (.ofRows B vs) (some (.scalar v)) true = .ok o ∧ o.shape = [B, 1]
+          ∧ ∀ i, i < B → o.get [i, 0] = rho am ph (vs i) v)
+      ∧ (∃ o, rhoCall am ph (.ofRows B vs) (some (.scalar v)) false = .ok o ∧ o.shape = [B]
+          ∧ ∀ i (hi : i < B), o.get [i] = rhoBatchVec am ph (fun k : Fin B => vs k) v ⟨i, hi⟩ ∧ o.get [i] = rho am ph (vs i) v)
+      ∧ rhoRankOutcome .vec (.batch B) true = .error .IndexError
+      ∧ rhoRankOutcome .vec (.batch B) false = .ok [B]
+      ∧ rhoRankOutcome (.batch B) .vec true = .ok [B, 1]
+      ∧ rhoRankOutcome (.batch B) .vec false = .ok [B] := by
+  refine ⟨rhoCall_vec_batch_expand am ph v B vs, ?_, rhoCall_batch_vec_expand am ph B vs v, ?_, rfl, rfl, rfl, rfl⟩
+  · obtain ⟨o, ho, hs, hg⟩ := rhoCall_vec_batch am ph v B vs
+    exact ⟨o, ho, hs, fun j hj => ⟨hg j hj, hg j hj⟩⟩
+  · obtain ⟨o, ho, hs, hg⟩ := rhoCall_batch_vec am ph B vs v
+    exact ⟨o, ho, hs, fun i hi => ⟨hg i hi, hg i hi⟩⟩
+
+/-- **C02.7e** the shape / refusal table `rhoRankOutcome` (and `rhoOutcome` for double arguments) IS the shape / refusal of the
+transcribed code for every rank combination of vectors and batches and both values of `expand` (`none` = refused). -/
+theorem C02_call_forms_outcome (am ph : PRBM ℝ n h a) (v vp : Fin n → ℝ) (B B' : ℕ) (vs vps : ℕ → Fin n → ℝ) (expand : Bool) :
+    let sh := fun (r : Except PyErr (FT (CPair ℝ))) => r.toOption.map FT.shape
+    sh (rhoCall am ph (.scalar v) (some (.scalar vp)) expand) = (rhoRankOutcome .vec .vec expand).toOption
+      ∧ sh (rhoCall am ph (.ofRows B vs) (some (.ofRows B' vps)) expand) = (rhoRankOutcome (.batch B) (.batch B') expand).toOption
+      ∧ sh (rhoCall am ph (.scalar v) (some (.ofRows B' vps)) expand) = (rhoRankOutcome .vec (.batch B') expand).toOption
+      ∧ sh (rhoCall am ph (.ofRows B vs) (some (.scalar vp)) expand) = (rhoRankOutcome (.batch B) .vec expand).toOption
+      ∧ rhoOutcome (.batch B) (some (.batch B')) expand .double = rhoRankOutcome (.batch B) (.batch B') expand := by
+  intro sh
+  refine ⟨?_, ?_, ?_, ?_, by cases expand <;> rfl⟩
+  · obtain ⟨o, ho, hs, _⟩ := rhoCall_vec_vec am ph v vp expand
+    simp [sh, ho, hs, rhoRankOutcome, Except.toOption]
+  · cases expand
+    · have hp := rhoCall_paired am ph B B' vs vps
+      rcases hC : pairedBatch B B' with e | C
+      · rw [hC] at hp
+        obtain ⟨e', he'⟩ := hp
+        simp [sh, he', rhoRankOutcome, hC, Except.toOption]
+      · rw [hC] at hp
+        obtain ⟨o, ho, hs, _⟩ := hp
+        simp [sh, ho, hs, rhoRankOutcome, hC, Except.toOption]
+    · obtain ⟨o, ho, hs, _⟩ := rhoCall_matrix am ph B B' vs vps
+      simp [sh, ho, hs, rhoRankOutcome, Except.toOption]
+  · cases expand
+    · obtain ⟨o, ho, hs, _⟩ := rhoCall_vec_batch am ph v B' vps
+      simp [sh, ho, hs, rhoRankOutcome, Except.toOption]
+    · obtain ⟨e, he⟩ := rhoCall_vec_batch_expand am ph v B' vps
+      simp [sh, he, rhoRankOutcome, Except.toOption]
+  · cases expand
+    · obtain ⟨o, ho, hs, _⟩ := rhoCall_batch_vec am ph B vs vp
+      simp [sh, ho, hs, rhoRankOutcome, Except.toOption]
+    · obtain ⟨o, ho, hs, _⟩ := rhoCall_batch_vec_expand am ph B vs vp
+      simp [sh, ho, hs, rhoRankOutcome, Except.toOption]
+
+/-- **C02.7f** the pointwise definitions the driver op `c02.eval` has executed since round 1 (`gammaMatrix`, `gammaPaired`, `piMatrix`,
+`piPaired`, `rhoMatrix`, `rhoPaired`) are the entries of the transcribed code on the same batches: `[i, j]` of the `expand=True` call
+resp. `[i]` of the `expand=False` call on equal batch sizes — for `gamma` (any sign, any network), `pi` and `rho`. -/
+theorem C02_call_forms_pointwise_defs (am ph : PRBM ℝ n h a) (sgn : ℝ) (B B' : ℕ) (vs vs' : Fin B → Fin n → ℝ) (ws : Fin B' → Fin n → ℝ)
+    (ext : ∀ {C : ℕ}, (Fin C → Fin n → ℝ) → ℕ → Fin n → ℝ)
+    (hext : ∀ {C : ℕ} (f : Fin C → Fin n → ℝ) (i : Fin C), ext f i.val = f i) :
+    (∃ g, am.gammaCall sgn (.ofRows B (ext vs)) (.ofRows B' (ext ws)) true = .ok g ∧ g.shape = [B, B']
+        ∧ ∀ (i : Fin B) (j : Fin B'), g.get [i.val, j.val] = am.gammaMatrix sgn vs ws i j)
+      ∧ (∃ g, am.gammaCall sgn (.ofRows B (ext vs)) (.ofRows B (ext vs')) false = .ok g ∧ g.shape = [B]
+        ∧ ∀ i : Fin B, g.get [i.val] = am.gammaPaired sgn vs vs' i)
+      ∧ (∃ p, piCall am ph (.ofRows B (ext vs)) (.ofRows B' (ext ws)) true = .ok p ∧ p.shape = [B, B']
+        ∧ ∀ (i : Fin B) (j : Fin B'), p.get [i.val, j.val] = piMatrix am ph vs ws i j)
+      ∧ (∃ p, piCall am ph (.ofRows B (ext vs)) (.ofRows B (ext vs')) false = .ok p ∧ p.shape = [B]
+        ∧ ∀ i : Fin B, p.get [i.val] = piPaired am ph vs vs' i)
+      ∧ (∃ o, rhoCall am ph (.ofRows B (ext vs)) (some (.ofRows B' (ext ws))) true = .ok o ∧ o.shape = [B, B']
+        ∧ ∀ (i : Fin B) (j : Fin B'), o.get [i.val, j.val] = rhoMatrix am ph vs ws i j)
+      ∧ (∃ o, rhoCall am ph (.ofRows B (ext vs)) (some (.ofRows B (ext vs'))) false = .ok o ∧ o.shape = [B]
+        ∧ ∀ i : Fin B, o.get [i.val] = rhoPaired am ph vs vs' i) := by
+  have hBB : pairedBatch B B = .ok B := by simp [pairedBatch]
+  refine ⟨?_, ?_, ?_, ?_, ?_, ?_⟩
+  · obtain ⟨g, hg, hs, he⟩ := PRBM.gammaCall_matrix am sgn B B' (ext vs) (ext ws)
+    exact ⟨g, hg, hs, fun i j => by rw [he i.val j.val i.isLt j.isLt, hext, hext]; rfl⟩
+  · have hq := PRBM.gammaCall_paired am sgn B B (ext vs) (ext vs')
+    rw [hBB] at hq
+    obtain ⟨g, hg, hs, he⟩ := hq
+    exact ⟨g, hg, hs, fun i => by rw [he i.val i.isLt, bsel_lt i.isLt, hext, hext]; rfl⟩
+  · obtain ⟨p, hp, hs, he⟩ := piCall_matrix am ph B B' (ext vs) (ext ws)
+    exact ⟨p, hp, hs, fun i j => by rw [he i.val j.val i.isLt j.isLt, hext, hext]; rfl⟩
+  · have hq := piCall_paired am ph B B (ext vs) (ext vs')
+    rw [hBB] at hq
+    obtain ⟨p, hp, hs, he⟩ := hq
+    exact ⟨p, hp, hs, fun i => by rw [he i.val i.isLt, bsel_lt i.isLt, hext, hext]; rfl⟩
+  · obtain ⟨o, ho, hs, he⟩ := rhoCall_matrix am ph B B' (ext vs) (ext ws)
+    exact ⟨o, ho, hs, fun i j => by rw [he i.val j.val i.isLt j.isLt, hext, hext]; rfl⟩
+  · have hq := rhoCall_paired am ph B B (ext vs) (ext vs')
+    rw [hBB] at hq
+    obtain ⟨o, ho, hs, he⟩ := hq
+    exact ⟨o, ho, hs, fun i => by rw [he i.val i.isLt, bsel_lt i.isLt, hext, hext]; rfl⟩
+
+/-- the extension hypothesis of `C02_call_forms_pointwise_defs` is satisfiable: rows beyond the batch are arbitrary (zero here) -/
+example : ∃ ext : ∀ {C : ℕ}, (Fin C → Fin n → ℝ) → ℕ → Fin n → ℝ, ∀ {C : ℕ} (f : Fin C → Fin n → ℝ) (i : Fin C), ext f i.val = f i :=
+  ⟨fun {C} f k => if hk : k < C then f ⟨k, hk⟩ else fun _ => 0, fun f i => by simp [i.isLt]⟩
+
+/-- non-vacuity: a concrete 2-qubit model with all biases non-zero; the single-element form on `v = (1,0) ≠ v' = (0,1)` is entry
+`[0, 1]` of the full-matrix form on the batch `[(1,0), (0,1)]` and entry `[0]` of the paired form on `[(1,0)]`, `[(0,1)]`. -/
+example :
+    let am : PRBM ℝ 2 3 2 := ⟨fun i j => (i.val : ℝ) - j.val + 0.5, fun k j => (k.val : ℝ) + j.val - 2.5,
+      fun j => if j = 0 then -1.5 else 2, fun i => if i = 0 then 0.7 else -0.3, fun k => if k = 0 then 1.2 else -0.4⟩
+    let ph : PRBM ℝ 2 3 2 := ⟨fun i j => 0.3 * (i.val : ℝ) - j.val + 0.25, fun k j => if k.val = j.val then 1 else -0.5,
+      fun j => if j = 0 then 0.5 else -1, fun i => if i = 0 then -0.2 else 0.9, fun _ => 0.8⟩
+    let v : Fin 2 → ℝ := fun j => if j = 0 then 1 else 0
+    let w : Fin 2 → ℝ := fun j => if j = 0 then 0 else 1
+    let rows : ℕ → Fin 2 → ℝ := fun i => if i = 0 then v else w
+    ∃ o m, rhoCall am ph (.scalar v) (some (.scalar w)) true = .ok o ∧ rhoCall am ph (.ofRows 2 rows) (some (.ofRows 2 rows)) true = .ok m
+      ∧ m.get [0, 1] = o.get [] := by
+  intro am ph v w rows
+  obtain ⟨o, ho, _, hg, _⟩ := (C02_call_forms_single am ph v w true).1
+  obtain ⟨m, hm, _, hmg⟩ := (C02_call_forms_matrix am ph 2 2 rows rows).1
+  refine ⟨o, m, ho, hm, ?_⟩
+  rw [hg, (hmg 0 1 (by norm_num) (by norm_num)).1]
+  simp [rows]
 
 end C02
 end QV.Props
